@@ -332,6 +332,10 @@ def build(tier):
             'out(0) == in(0), out(g) == out(g-1) + in(g) at a ghost index, every access in bounds, no overflow and no narrowing of the running sum; ranks 2 and 3 (SMT): the index pattern of '
             'the recursion (slice i0 of the input integrated into slice i0 of the output, then output row i0-1 added to output row i0, whole rows, i0 >= 1 only, in that order); integral(): '
             'an empty tensor is left alone, a non-empty one is integrated exactly once',
+            'integral.h VALUES, rank 2 (SMT over Int, specs/C16/ispec.py; int8 -> int64 and int32 -> int64): on the real loop of integral_t<2>::get, at an arbitrary interior ghost cell (ga, gb): '
+            'I(ga, gb) == x(ga, gb) + I(ga-1, gb) + I(ga, gb-1) - I(ga-1, gb-1) once row ga is complete and at the end (loop invariant; the four output cells are followed through the row '
+            'integration -- the CBMC-proved rank-1 contract out(g) == out(g-1) + in(g) -- and through the row additions); overflow: every row addition adds the previously completed row to the row '
+            'integrated last and does not overflow int64 at an arbitrary ghost column (magnitude invariant |I(i0-1, gc)| <= M * (gc+1) * i0, from |out(g)| <= M * (g+1) of the rank-1 contract)',
             'algorithm.h remove_if(op, rank-1 tensor) (CBMC, the real loops under loop contracts, real array of symbolic length): every index of [0, size) is examined, in order, nothing outside; '
             'returns the number of kept elements; the ORIGINAL value of every kept element g ends at position #(kept before g) < ret (compaction in order); detail::size, detail::copy (rank 1); '
             'the same contract on the (rank 1, rank 2, rank 1) instantiation that solver/bundle.h uses (expanded pack, one target per tracked tensor; rows of the rank-2 tensor are opaque tokens)',
@@ -346,7 +350,11 @@ def build(tier):
             'pointer level (CBMC, ranks 1..3): in tvector / ttensor / tmatrix / tslice the real expression ptr + offset0(..) stays inside the array object of size() doubles and the mapped range '
             '[pointer, pointer + extent) is addressable memory of that object; operator()(index) returns data() + index inside the object. The offsets\' contracts are ASSUMED there exactly as '
             'proved on the SMT side: the C requires-clause is generated from the same python clause functions (tmodel.ens_view / ens_slice) with the C names substituted',
-            'storage.h on REAL heap objects (CBMC, rank 1, double; specs/C16/storage.h, sspec.py): every constructor (default, sizes, dims, converting, copy, move), every assignment operator '
+            'storage.h on REAL heap objects (CBMC, double; rank 1: every operation below; rank 2, quick tier: sizes / dims constructors, owning <- / = constant and mutable views, owning copy / move '
+            'assignment, resize(sizes) / resize(dims), mapping <- owning, mapping element copies copy<mapping> / = owning, tensor_mem_t = tensor_map_t, the defaulted move assignment of tensor_map_t, '
+            'owning = view INSIDE its own buffer; rank 3, quick tier: owning = constant view, resize(dims), copy<mapping>; thorough tier: every operation at ranks 2 and 3.  At ranks >= 2 size() is '
+            'the NAMED product of the extents: an uninterpreted function of the extent tuple, so equal dims give equal sizes and nothing else is known -- an allocation / copy of size<0>() or dims[0] '
+            'coefficients instead of size() is refuted at rank 2 while it is invisible at rank 1; specs/C16/storage.h, sspec.py): every constructor (default, sizes, dims, converting, copy, move), every assignment operator '
             '(owning = constant / mutable mapping view, copy, move; mapping = owning / mapping / constant mapping, move), resize(sizes) / resize(dims), data() of tensor_vector_storage_t, '
             'tensor_carray_storage_t, tensor_marray_storage_t, tensor_base_t (dims, size, _resize, constructors, assignment) and the converting constructors / operator= of tensor_t: after the '
             'conversion the destination has the source\'s dims, destination element i == the source\'s element i AS IT WAS BEFORE THE CALL (ghost index), an owning destination owns live memory '
@@ -356,8 +364,9 @@ def build(tier):
             'GENUINE DEFECT kept as failing obligations (tensor_t<R>::tslice/callee offset0 ASSERTED precondition ...): tslice admits begin == end == dims[0] (its own assert: begin <= end <= '
             'size<0>()) but then calls offset0(begin), whose assert (get_index0: index < dims[0]) rejects it; t.slice(n, n) and empty.slice(0, 0) abort in debug builds. The arithmetic itself is '
             'right (all other tslice obligations are proved for the whole range through the end-inclusive contract of offset0)'],
-        'not_decided': ['storage conversions for ranks >= 2 (the storage classes are rank-generic text; the CBMC targets instantiate rank 1, where size() is the extent itself), '
-                        'implicit member destruction (~tensor_vector_storage_t has no statement in the AST), allocation failure (std::bad_alloc path)', 'summed-area table VALUES for ranks >= 2 and for floating-point outputs',
+        'not_decided': ['storage conversions: ranks >= 4; at ranks 2, 3 most operations run in the thorough tier only, '
+                        'implicit member destruction (~tensor_vector_storage_t has no statement in the AST), allocation failure (std::bad_alloc path)', 'summed-area table VALUES: rank 3; the border cells of rank 2 (row 0 / column 0, where the recurrence has fewer terms); the region-sum formula as such (it follows from the recurrence by '
+                        'telescoping: an induction over the region that is not mechanised here); floating-point outputs',
                         'Eigen Map construction itself (map_vector / map_matrix / map_tensor are constructors: their result is modelled as (pointer, extent))',
 'tensor.h numeric helpers (zero, full, random, min, max, ... : Eigen expressions over vector())'],
         'assumptions': ['tensor invariant: every extent >= 0 and every suffix product of the extents <= 2^62 (precondition, reported)',
@@ -378,12 +387,16 @@ def build(tier):
                         'are wplib vocabulary (engine/wplib.py aggregate_array, h_std_copy)',
                         'remove_if: op is a pure function of the index (libnano\'s callers read tensors that remove_if is compacting, but only at positions >= curr, which are still original); '
                         'all tensors passed together have the same size<0>() (true of the three call sites: slices [0, m_size) of equally long buffers)',
+                        'integral_t<2>::get values: rows of at most 10^6 elements (the domain of the CBMC-proved rank-1 contract) and M * size() <= 2^62 with M the magnitude bound of the input scalar '
+                        '(128 / 2^31); Eigen Map += Map adds coefficient k to coefficient k in the output scalar type (ASSUMED); the input cells are arbitrary values of the input scalar type',
                         'integral_t<1>::get: tensors of at most 10^6 elements (bound on the symbolic array length; keeps |running sum| <= 2^31 * 10^6 < 2^63)',
                         'Eigen vector model {heap block, length} (ASSUMED, truthful about the order of effects; specs/C16/storage.h): vector(n) allocates; vector(map) / vector(v) allocate fresh storage '
                         'THEN copy; v = map / v = w release + allocate when the sizes differ THEN copy from the source pointer; v = std::move(w) and swap exchange the blocks; resize(n) releases + '
                         'allocates when the size changes; ~vector releases; map = map needs equal lengths and no partial overlap (the source range is the destination range itself or a separate block); '
                         'a copy reads the WHOLE source range (asserted readable at that moment) and is tracked at the ghost index; allocation does not fail (std::bad_alloc path out of scope)',
-                        'storage targets: tensors of at most 10^6 elements; the moved-from state of an owning storage is unspecified (not constrained); owning storages of rank 1 (size() == dims[0])',
+                        'storage targets: tensors of at most 10^6 elements; the moved-from state of an owning storage is unspecified (not constrained); ranks 2, 3: nano::size(dims) / size() is an '
+                        'uninterpreted function of the extents with values in [0, 10^6] on valid shapes (that it IS the product, >= 0, is proved on the SMT side: size<R>, tensor_base_t<R>::size); '
+                        'size<k>() == dims[k] (proved on the SMT side)',
                         'CBMC pointer shell: the ghost results of offset0 / size(dims0) / the slice extent satisfy the SMT-proved clauses (generated from the same clause functions) and lie in [0, size]'],
         'trusted': ['std::get<I>(std::array) returns element I', 'std::array::fill', 'std::array::operator[] with a constant index', 'range-based for over std::array<T, N> runs exactly N iterations in index order'],
     }
